@@ -20,5 +20,6 @@ func main() {
 	flag.Parse()
 	r := rep.New("C02", *tier, "model_checking")
 	seqpart.Run(r, *tier)
+	seqpart.RunTyped(r, *tier)
 	os.Exit(r.Finish())
 }
